@@ -43,6 +43,8 @@ func (s Stack) Apply(opt *Option, profile string) (string, error) {
 		return "", fmt.Errorf("no profile to stack")
 	}
 	t := opt.ArgList[0]
+	// Work on a copy: the package-level list must not grow from one profile to the next
+	regCleanStakedRules := slices.Clone(regCleanStakedRules)
 	if t != "X" {
 		regCleanStakedRules = slices.Insert(regCleanStakedRules, 0,
 			util.ToRegexRepl([]string{
@@ -54,7 +56,10 @@ func (s Stack) Apply(opt *Option, profile string) (string, error) {
 	}
 
 	res := ""
-	for name := range opt.ArgMap {
+	for _, name := range opt.ArgList { // In the order given
+		if _, present := opt.ArgMap[name]; !present {
+			continue
+		}
 		stackedProfile := prebuild.RootApparmord.Join(name).MustReadFileAsString()
 		m := regRules.FindStringSubmatch(stackedProfile)
 		if len(m) < 2 {
